@@ -20,6 +20,7 @@ class CreateInsertExtractor(BaseExtractor):
     SUPPORTED_STMT_TYPES = [
         "create_table_statement",
         "create_table_as_statement",
+        "create_table_as_select_statement",
         "create_view_statement",
         "insert_statement",
         "insert_overwrite_directory_hive_fmt_statement",
